@@ -17,9 +17,13 @@ theorem leading_branch_accepted : ∃ r, smiles (str "(C)C") = .ok r := ⟨_, rf
 theorem acceptIffInGrammar_false : ¬ AcceptIffInGrammar := by
   intro h
   have := (h false [.lpar, .atom 0 { element := [67] }, .rpar, .atom 0 { element := [67] }]
-    (by intro t ht; simp at ht; rcases ht with rfl | rfl | rfl | rfl <;> trivial)).mp ⟨_, rfl⟩
+    (by intro t ht; simp at ht; rcases ht with rfl | rfl | rfl | rfl <;> rfl)).mp ⟨_, rfl⟩
   obtain ⟨c, hc⟩ := this
   simp [print, toToks, symTok] at hc
+
+/-- `parser` alone accepts `C(())`-like token sequences; only the tokenizer refuses `((` and `()` -/
+theorem parser_accepts_empty_open :
+    ∃ st, parse false [.atom 0 { element := [67] }, .lpar, .rpar] = .ok st := ⟨_, rfl⟩
 
 /-- `%` + one digit at the end of the string is read as a ring closure -/
 theorem percent_single_digit_accepted : ∃ r, smiles (str "C1CC%1") = .ok r := ⟨_, rfl⟩
